@@ -7,7 +7,7 @@
     clause is decided by harness/src/bin/h_session.rs (catch_unwind, child processes) and is testing. *)
 From Coq Require Import List Arith Bool.
 Import ListNotations.
-Require Import Verif.Session.Pipeline Verif.Session.Proofs.
+Require Import Verif.gen.SessionFacts Verif.Session.Pipeline Verif.Session.Proofs Verif.Session.Order.
 
 (** The unrestricted claim "rejected before execution => no effect" is FALSE for the faithful model
     (finding F2, what remains of it after repository commit 473a35e). Witnesses, each replayed on the
@@ -143,3 +143,108 @@ Example c09_example_stale_global_panics :
                  CAct (ALet (G 16) EInt); CCheck [FEq (EVar (G 16)) (EVar (G 16))]])
   = [RAccept; RAccept; RReject EShadowing; RPanic].
 Proof. vm_compute. reflexivity. Qed.
+
+From Coq Require Import String.
+Open Scope string_scope.
+Open Scope list_scope.
+(* ======================================================================================== *)
+(** * The mutation ORDER, regenerated from the source (gen/SessionFacts.v, Tier A) *)
+
+(** every path of the pipeline (typecheck_command arms, check_shadowing arms, run_command arms,
+    typecheck_function, typecheck_program, resolve_command_before_proofs, push, pop): the order of
+    validations and mutations the model is written in EQUALS the order regenerated from
+    src/typechecking.rs, src/lib.rs, src/ast/check_shadowing.rs on this run *)
+Theorem c09_model_order_is_source_order :
+  Forall (fun p => snd (fst p) = snd p) order_table.
+Proof. exact model_order_is_source_order. Qed.
+Print Assumptions c09_model_order_is_source_order.
+
+(** the abstract lemma: on a loop-free step list, "no step that can reject comes after a step that
+    mutates" holds IF AND ONLY IF every rejected run — whatever the individual validations answer,
+    with no rollback — has performed no mutation *)
+Theorem c09_validates_first_iff_atomic : forall db l,
+  vf db false l = true <-> (forall ok tr, exec db ok 0 l [] = (tr, true) -> tr = []).
+Proof. exact vf_iff_atomic. Qed.
+Print Assumptions c09_validates_first_iff_atomic.
+
+(** exclusive branches are listed one after the other: a real execution path is a subsequence of
+    the regenerated list, and inherits the criterion *)
+Theorem c09_validates_first_subseq : forall db (l' l : list sstep),
+  subseq l' l -> forall d, vf db d l = true -> vf db d l' = true.
+Proof. exact vf_subseq. Qed.
+Print Assumptions c09_validates_first_subseq.
+
+(** the model's declaration functions ARE the regenerated lists, interpreted (each label given its
+    meaning on the model state, a failing validation returning the state as it is at that point):
+    a source patch that moves the insertion of the signature above a check changes the left-hand side *)
+Theorem c09_tc_function_is_source_order : forall n ins out ctor merge F,
+  interp_fn n ins out ctor merge typecheck_function_steps F = Some (tc_function F n ins out ctor merge).
+Proof. exact tc_function_is_source_order. Qed.
+Print Assumptions c09_tc_function_is_source_order.
+
+Theorem c09_tc_sort_is_source_order : forall n k pre F,
+  interp_sort n k pre tc_arm_sort_steps F = Some (tc_sort F n k pre).
+Proof. exact tc_sort_is_source_order. Qed.
+Print Assumptions c09_tc_sort_is_source_order.
+
+Theorem c09_tc_let_is_source_order : forall x e F,
+  interp_let x e tc_arm_let_steps F = Some (tc_ncmd F (NAct (ALet x e))).
+Proof. exact tc_let_is_source_order. Qed.
+Print Assumptions c09_tc_let_is_source_order.
+
+(** atomic BY ORDER (declaration state): every typecheck arm and every check_shadowing arm taken
+    alone, and the whole ruleset / rule / non-let action / check commands *)
+Theorem c09_paths_atomic_by_order :
+  Forall (fun l => validates_first false l = true)
+    [typecheck_function_steps; tc_arm_function_steps; tc_arm_sort_steps; tc_arm_let_steps; tc_arm_action_steps;
+     tc_arm_rule_steps; tc_arm_check_steps; tc_arm_schedule_steps; tc_arm_ruleset_steps; tc_arm_combined_steps;
+     tc_arm_push_steps; tc_arm_pop_steps; tc_arm_printsize_steps;
+     shadow_arm_sort_steps; shadow_arm_function_steps; shadow_arm_ruleset_steps; shadow_arm_combined_steps;
+     shadow_arm_rule_steps; shadow_arm_action_steps]
+  /\ Forall (fun l => validates_first false l = true) [p_ruleset; p_rule; p_action; p_check].
+Proof. exact (conj typecheck_arms_validate_first whole_paths_validate_first). Qed.
+Print Assumptions c09_paths_atomic_by_order.
+
+(** REFUTED BY ORDER: on these regenerated paths a mutation precedes a validation — whole sort /
+    function / let commands (check_shadowing after the typechecker recorded the declaration),
+    datatypes with >= 1 variant, `(fail c)` (F10); each F2 path comes with its witness in the model *)
+Theorem c09_paths_order_refuted :
+  Forall (fun l => vf false false l = false) [p_sort; p_function; p_let; p_datatype_tc 1; p_datatype_tc 2; p_fail]
+  /\ (forall k, vf false false (p_datatype_tc (S k)) = false)
+  /\ typecheck_program_steps = [LoopStart; Call "typecheck_command"; LoopEnd]
+  /\ rejected_with_effect init (CDatatype (U 11) [(U 12, [U 0]); (U 13, [U 14])])
+  /\ rejected_with_effect (fst (step init (CRuleset (U 15))))
+       (CFunction (U 15) [U 0] (U 0) (Some (EPrim PMin [EVar (U 2); EVar (U 3)])))
+  /\ rejected_with_effect (fst (step init (CAct (ALet (G 16) EInt)))) (CAct (ALet (G 16) EStr)).
+Proof.
+  exact (conj whole_paths_mutate_before_validating
+          (conj datatype_never_validates_first
+            (conj typecheck_program_is_plain_loop
+              (conj bad_variant_leaves_sort_and_constructor
+                (conj shadowing_after_typecheck_leaves_signature second_let_changes_global_sort))))).
+Qed.
+Print Assumptions c09_paths_order_refuted.
+
+(** combined rulesets (F12, fixed by e53b4f6): the late validation in run_command comes after
+    check_shadowing's mutation, but the same validation runs before the command is resolved *)
+Theorem c09_combined_ruleset_guarded :
+  vf false false p_combined = false
+  /\ precedes (Validate "NoSuchRuleset") (Opaque "desugar_command") process_program_steps = true
+  /\ precedes (Validate "NoSuchRuleset") (Call "typecheck_command") process_program_steps = true.
+Proof. exact combined_ruleset_guarded_by_early_check. Qed.
+Print Assumptions c09_combined_ruleset_guarded.
+
+(** DATABASE effects by order: a failing top-level action touches no declaration state, but
+    `run_rules` precedes the conversion of the backend error (writes made before the failing
+    instruction stay — observed on the engine by h_session's `db-partial` probes); a rejected rule
+    leaves neither declaration state nor database writes *)
+Theorem c09_db_effects_by_order :
+  validates_first false p_action = true /\ vf true false p_action = false /\ validates_first true p_rule = true.
+Proof. exact (conj (proj1 action_db_not_atomic_by_order) (conj (proj2 action_db_not_atomic_by_order) rule_db_atomic_by_order)). Qed.
+Print Assumptions c09_db_effects_by_order.
+
+Example c09_example_order_exec :
+  exec false (fun i => negb (Nat.eqb i 6)) 0 typecheck_function_steps [] = ([], true)
+  /\ (let r := exec false (fun i => negb (Nat.eqb i 32)) 0 (p_datatype_tc 2) [] in
+      snd r = true /\ Nat.leb 2 (List.length (fst r)) = true).
+Proof. exact (conj exec_function_path_rejects_clean exec_datatype_path_rejects_dirty). Qed.
